@@ -405,9 +405,101 @@ def r_nameunique(ctx):
                     "a generator call has no constant condition name"), "%s:%d" % (c.module.rel, ca.hooks[c.name].fn.lineno))
 
 
+def r_hook_tables(ctx):
+    """A hook that fills its own tables (instead of going through the generators): per pair of samples every block table receives exactly one
+    cell in the row of the first sample -- 0 or the constraint that is also added to the class list -- on every path."""
+    repo = ctx.repo
+    fbase = repo.cls("Function")
+    n = 0
+    for c in repo.subclasses(fbase):
+        fn = c.methods.get("add_class_constraints")
+        if fn is None or not any(isinstance(s0.targets[0], ast.Subscript) and dotted(s0.targets[0].value) == "self.tables_of_constraints" for s0 in flow.stmts_of(fn, ast.Assign)):
+            continue
+        # the local that holds one table (list of rows) per block: built by a nested comprehension / list of lists before the sample loops
+        tabs = [s0.targets[0].id for s0 in fn.body if isinstance(s0, ast.Assign) and isinstance(s0.targets[0], ast.Name)
+                and isinstance(s0.value, (ast.ListComp, ast.List, ast.BinOp)) and any(isinstance(x, (ast.ListComp, ast.List)) for x in ast.walk(s0.value) if x is not s0.value)]
+
+        def cell_append(a):
+            """(block loop, row expression) when `a` appends a cell to the row of one block table, else None"""
+            if not (isinstance(a, ast.Call) and call_name(a) == "append" and isinstance(a.func.value, ast.Subscript)):
+                return None
+            base, row = a.func.value.value, a.func.value.slice
+            kl = flow.in_loop(common.stmt_of(a))
+            if kl is None or not isinstance(kl, ast.For):
+                return None
+            it0 = iter_base_(kl.iter)
+            tg = kl.target
+            if isinstance(base, ast.Subscript) and isinstance(base.value, ast.Name) and base.value.id in tabs:
+                kvar = tg.id if isinstance(tg, ast.Name) else (tg.elts[0].id if isinstance(tg, ast.Tuple) and isinstance(tg.elts[0], ast.Name) else None)
+                rng = isinstance(it0, ast.Call) and call_name(it0) == "range" or (dotted(it0) in tabs and isinstance(tg, ast.Tuple))
+                if rng and dotted(base.slice) == kvar:
+                    return kl, row
+                return None
+            if isinstance(base, ast.Name) and dotted(it0) in tabs:
+                rvar = tg.id if isinstance(tg, ast.Name) else (tg.elts[1].id if isinstance(tg, ast.Tuple) and len(tg.elts) == 2 and isinstance(tg.elts[1], ast.Name) else None)
+                if base.id == rvar:
+                    return kl, row
+            return None
+        apps = [(a, cell_append(a)) for a in ast.walk(fn)]
+        apps = [(a, ca) for a, ca in apps if ca is not None]
+        if not apps:
+            continue
+        n += 1
+        key = "%s.add_class_constraints::own tables" % c.name
+        msg = None
+        sample_loops = [l for l in flow.stmts_of(fn, ast.For) if dotted(iter_base_(l.iter)) == "self.list_of_points"]
+        outer = [l for l in sample_loops if flow.in_loop(l) is None]
+        inner = [l for l in sample_loops if flow.in_loop(l) in outer]
+        if len(outer) != 1 or len(inner) != 1:
+            msg = "the tables are not filled inside two nested loops over the samples"
+        else:
+            i_var = outer[0].target.elts[0].id if isinstance(outer[0].target, ast.Tuple) and isinstance(outer[0].target.elts[0], ast.Name) else None
+            kloops = []
+            is_cell = lambda nd: cell_append(nd) is not None
+            for a, (kl, row) in apps:
+                if dotted(row) != i_var:
+                    msg = "the cell `%s` goes to row `%s`, the row of the pair is that of the first sample (`%s`)" % (src(a)[:60], src(row), i_var)
+                    break
+                pc = flow.path_counts(kl.body, is_cell)
+                counts = set()
+                for kind0, cs0 in pc.items():
+                    if kind0 in ("next", "continue"):
+                        counts |= cs0
+                if set(pc) - {"next", "continue"} or counts != {1}:
+                    msg = "per block, %s cells are appended depending on the path: the row loses its alignment with the samples" % sorted(counts)
+                    break
+                v = a.args[0]
+                if not is_const(v, 0):
+                    blk0 = flow.block_of(common.stmt_of(a))[2]
+                    together = [x for x in blk0 if isinstance(x, ast.Expr) and isinstance(x.value, ast.Call) and call_name(x.value) == "append"
+                                and dotted(x.value.func.value) == "self.list_of_class_constraints" and x.value.args and dotted(x.value.args[0]) == dotted(v)]
+                    if not (isinstance(v, ast.Name) and len(together) == 1):
+                        msg = "the cell `%s` is not the constraint that is added to the class list in the same iteration" % src(v)
+                        break
+                if kl not in kloops:
+                    kloops.append(kl)
+            if msg is None:
+                pc = flow.path_counts(inner[0].body, lambda nd: False, lambda st: st in kloops)
+                done = set()
+                for kind0, cs0 in pc.items():
+                    if kind0 in ("next", "continue"):
+                        done |= cs0
+                if set(pc) - {"next", "continue"} or done != {1}:
+                    msg = "per pair of samples the block tables are extended %s times depending on the path (expected once on every path)" % sorted(done)
+        ctx.ob("R-ALIGN", key, msg is None, "per pair of samples every block table receives exactly one cell in the row of the first sample" if msg is None else msg, loc(fn, fn))
+    ctx.count("hooks filling their own tables", n)
+    return n
+
+
+def iter_base_(it):
+    from ..model import iter_base
+    return iter_base(it)[0]
+
+
 def run(ctx):
     r_nameunique(ctx)
     r_align(ctx)
+    r_hook_tables(ctx)
     r_name(ctx)
     n = r_tabletype(ctx)
     r_bypass(ctx)
@@ -438,6 +530,16 @@ def _hook_name_parts(ctx, cls, hook, em, ev):
                 fb = [d for d in defs if "format(" in src(d.value)]
                 good = all(src(d.value).replace(" ", "").endswith(".format(%s)" % l["index"]) for d in fb)
                 ids.append((k, a.id, good, [src(d.value) for d in fb]))
+    # the name starts with the function's own id, the sample ids come last
+    first = parts[0] if parts else None
+    fdefs = [s0 for s0 in flow.stmts_of(fn, ast.Assign) if isinstance(first, ast.Name) and dotted(s0.targets[0]) == first.id]
+    okf = isinstance(first, ast.Name) and any("self.get_name()" in src(d.value) for d in fdefs)
+    id_names = [nm for _, nm, _, _ in ids]
+    tail = [a.id for a in parts[-len(id_names):] if isinstance(a, ast.Name)] if id_names else []
+    okf = okf and tail == id_names
+    ctx.ob("R-NAME", em.key + "::function id first, sample ids last", okf,
+           "the name is built from (function id, ..., first sample id, second sample id)" if okf else
+           "the name parts are (%s): the function id is not first / the sample ids are not last" % ", ".join(src(a) for a in parts), em.where)
     seen = [k for k, _, _, _ in ids]
     ok = seen == list(range(len(loops))) and all(g for _, _, g, _ in ids)
     bad = [(nm, fb) for _, nm, g, fb in ids if not g]
